@@ -518,3 +518,57 @@ def feasible_failure(ctx, config="all", keys=None):
             rep.ok(short + "|can-fail", where, "failure outcome feasible in %d configurations" % len(ctx.cfgs()))
     rep.analysed = {"build_config": config, "function_configurations": n}
     return rep
+
+
+FLAGGED_OPS = {"add": "src/add.rs", "sub": "src/add.rs", "neg": "src/add.rs", "mul": "src/mul.rs", "shl": "src/bits.rs",
+               "shr": "src/bits.rs", "pow": "src/pow.rs"}
+
+
+def flag_range(ctx, config="all", ops=None):
+    """R-FLAG/flag-range: the indicator of overflowing_X is not a constant it must not be.
+
+    BITS == 0: the type has exactly one value and 0 op 0 = 0 is in range, so `false` must be a feasible indicator
+    (a constant `true` makes checked_X return None for the only input there is).  BITS > 0: both outcomes occur for
+    every X, so the indicator must not be provably constant.  Decided on the interval interpretation of the
+    configuration-pruned body with contextual summaries of the callees' returned pairs."""
+    from . import total_rule
+    rep = Report("R-FLAG/flag-range", "the overflow indicator returned by overflowing_{add,sub,neg,mul,shl,shr,pow} can be "
+                 "false for BITS == 0 (the only value there is never overflows) and is not provably constant for "
+                 "BITS > 0; interval interpretation per configuration with summaries of the pairs callees return")
+    prog = ctx.prog(config)
+    T = total_rule.totality(ctx, config)
+    U_ = "crate::Uint<BITS, LIMBS>"
+    n = 0
+    for op, f in FLAGGED_OPS.items():
+        if ops and op not in ops:
+            continue
+        cands = [b for b in prog.fn_bodies() if b["name"] == "overflowing_" + op and b["file"] == f
+                 and (prog.impl_of(b) or {}).get("self_s") == U_ and not (prog.impl_of(b) or {}).get("trait")]
+        if not cands:
+            rep.violation("overflowing_%s|missing" % op, f, "overflowing_%s not found" % op)
+            continue
+        b = cands[0]
+        key = b["key"].replace("crate::", "")
+        where = "%s:%s" % (b["file"], b["line"])
+        bad = []
+        for cfg in ctx.cfgs():
+            n += 1
+            a = T.ai(b["key"], cfg)
+            if a is None:
+                continue
+            iv = a.return_paths().get((("f", 1),))
+            if iv is None:
+                continue
+            if cfg[0] == 0 and iv == (1, 1):
+                bad.append((cfg, "always true"))
+            elif cfg[0] > 0 and iv[0] == iv[1]:
+                bad.append((cfg, "always %s" % ("true" if iv[0] else "false")))
+        if bad:
+            rep.violation(key + "|flag-range", where, "the overflow indicator of overflowing_%s is provably constant: %s" % (
+                op, ", ".join("(%d,%d): %s" % (c[0], c[1], w) for c, w in bad[:6])) +
+                ("; for BITS == 0 the only value is 0 and 0 %s 0 does not overflow" % op if any(c[0] == 0 for c, _w in bad) else ""))
+        else:
+            rep.ok(key + "|flag-range", where, "indicator not constant where it must vary, false feasible for BITS == 0")
+    rep.analysed = {"build_config": config, "function_configurations": n}
+    rep.floor("function_configurations", n, 16 * (len(ops) if ops else len(FLAGGED_OPS)))
+    return rep
